@@ -165,6 +165,12 @@ class Ctx:
             if t_ok and f_ok:
                 d = True
                 self.alternatives.append(self.decisions + [False])
+                if os.environ.get("PYVC_TRACE"):
+                    import traceback
+                    st = traceback.extract_stack(limit=9)[:-1]
+                    print("FORK path=%d #%d at %s\n     cond: %s" % (
+                        self.path_id, idx, " <- ".join("%s:%d" % (os.path.basename(f.filename), f.lineno)
+                                                       for f in reversed(st)), str(cond)[:300]))
             elif t_ok:
                 d = True
             elif f_ok:
@@ -172,6 +178,8 @@ class Ctx:
             else:
                 raise PathEnd("infeasible")
         self.decisions.append(d)
+        if os.environ.get("PYVC_DEBUG"):
+            self.aux.setdefault("dlog", []).append((d, str(cond)[:160].replace("\n", " ")))
         self.add(cond if d else z3.Not(cond))
         return d
 
@@ -248,7 +256,9 @@ class Ctx:
                 status, backend = "discharged", "cvc5"
             detail = (detail + " z3:unknown(%s)" % s.reason_unknown()).strip()
         if status != "discharged" and os.environ.get("PYVC_DEBUG"):
-            print("DEBUG %s %s path=%d\n  goal: %s\n  decisions: %s" % (status, name, self.path_id, goal, self.decisions))
+            print("DEBUG %s %s path=%d\n  goal: %s" % (status, name, self.path_id, str(goal)[:600]))
+            for d_, c_ in self.aux.get("dlog", []):
+                print("     [%s] %s" % ("T" if d_ else "F", c_))
         ob = Obligation(name, status, backend, time.time() - t0, self.path_id, model, detail, size)
         self.run.record(ob)
         # assert-then-assume: later obligations on this path may rely on the goal
